@@ -9,6 +9,7 @@ import (
 
 	"github.com/mmcloughlin/avo/operand"
 	"github.com/mmcloughlin/avo/reg"
+	"github.com/mmcloughlin/avo/x86"
 )
 
 // ---------------------------------------------------------------------------
@@ -393,6 +394,11 @@ func c05Emit(o *out, db *formsDB, cases, panics []*c05Case) map[string]any {
 		}
 		// the printed line, parsed back by the model's independent parser
 		o.emit("accept-line "+desc+" => "+hexs(c.line), "ok")
+		// the operands are members of the operand classes the matched form names (Lean model of the class predicates)
+		if c.form != nil {
+			o.emit("accept-class "+desc, "ok")
+			count["class_judged"]++
+		}
 		switch c.status {
 		case "ok":
 			c.decoded = c05Decode(c)
@@ -551,7 +557,7 @@ func c05Replay(db *formsDB, g *c05Gen, lines []string) ([]*c05Case, error) {
 	seen := map[string]bool{}
 	for _, l := range lines {
 		f := strings.Fields(l)
-		if len(f) < 8 || (f[0] != "accept-asm" && f[0] != "accept-line") {
+		if len(f) < 8 || (f[0] != "accept-asm" && f[0] != "accept-line" && f[0] != "accept-class") {
 			continue
 		}
 		n, err := strconv.Atoi(f[7])
@@ -586,6 +592,42 @@ func c05Replay(db *formsDB, g *c05Gen, lines []string) ([]*c05Case, error) {
 			continue
 		}
 		out = append(out, c)
+	}
+	return out, nil
+}
+
+// c05ReplayClass re-evaluates the `opclass <type> <operand>` lines of a replay / corpus file on the real predicate.
+func c05ReplayClass(db *formsDB, lines []string) ([]c05ClassLine, error) {
+	typeCode := map[string]uint8{}
+	for code, name := range db.oprndName {
+		typeCode[name] = code
+	}
+	var out []c05ClassLine
+	seen := map[string]bool{}
+	for _, l := range lines {
+		f := strings.Fields(l)
+		if len(f) != 3 || f[0] != "opclass" || seen[l] {
+			continue
+		}
+		seen[l] = true
+		code, ok := typeCode[f[1]]
+		if !ok {
+			return nil, fmt.Errorf("opclass: unknown operand type %q", f[1])
+		}
+		op, err := c05DecOp(f[2])
+		if err != nil {
+			return nil, err
+		}
+		res := "0"
+		if _, panicked := safely(func() error {
+			if x86.VerifMatch(code, op) {
+				res = "1"
+			}
+			return nil
+		}); panicked {
+			res = "panic"
+		}
+		out = append(out, c05ClassLine{strings.Join(f, " "), res})
 	}
 	return out, nil
 }
